@@ -162,3 +162,14 @@ Theorem collect_head_all ops sd a miu p c' : collect1 (reach ops sd) a miu = Som
   (exists l sl, sap_get (reach ops sd) a = Sap l (p :: sl) /\ sap_get c' a = Sap l sl /\ c_socks c' = c_socks (reach ops sd)) \/
   (a = 1 /\ c_socks c' = c_socks (reach ops sd)).
 Proof. intro C. exact (collect_head _ _ _ _ _ (reach_wf ops sd) C). Qed.
+
+(* in every reachable state: whatever waits in the receive queue of a datagram socket is a UI PDU addressed to the
+   address the socket is bound to; whatever waits in its send queue is a UI PDU carrying that address as source *)
+Theorem datagram_queues_all ops sd i s p : get_sock (reach ops sd) i = Some s -> s_type s = TLdl ->
+  (In p (s_recvq s) -> exists d sa data, p = PUI d sa data /\ s_addr s = Some d) /\
+  (In p (s_sendq s) -> exists d data a, p = PUI d a data /\ s_addr s = Some a).
+Proof.
+  intros G T. split; intro H.
+  - exact (wf_ldl_rq _ (reach_wf ops sd) i s p G T H).
+  - exact (wf_ldl_sq _ (reach_wf ops sd) i s p G T H).
+Qed.
